@@ -1,9 +1,12 @@
 Gen/GenChunk.vo Gen/GenChunk.glob Gen/GenChunk.v.beautified Gen/GenChunk.required_vo: Gen/GenChunk.v Lib/NumOps.vo
 Gen/GenChunk.vio: Gen/GenChunk.v Lib/NumOps.vio
 Gen/GenChunk.vos Gen/GenChunk.vok Gen/GenChunk.required_vos: Gen/GenChunk.v Lib/NumOps.vos
-Gen/GenProto.vo Gen/GenProto.glob Gen/GenProto.v.beautified Gen/GenProto.required_vo: Gen/GenProto.v 
-Gen/GenProto.vio: Gen/GenProto.v 
-Gen/GenProto.vos Gen/GenProto.vok Gen/GenProto.required_vos: Gen/GenProto.v 
+Gen/GenParams.vo Gen/GenParams.glob Gen/GenParams.v.beautified Gen/GenParams.required_vo: Gen/GenParams.v Lib/NumOps.vo
+Gen/GenParams.vio: Gen/GenParams.v Lib/NumOps.vio
+Gen/GenParams.vos Gen/GenParams.vok Gen/GenParams.required_vos: Gen/GenParams.v Lib/NumOps.vos
+Gen/GenProto.vo Gen/GenProto.glob Gen/GenProto.v.beautified Gen/GenProto.required_vo: Gen/GenProto.v Lib/NumOps.vo
+Gen/GenProto.vio: Gen/GenProto.v Lib/NumOps.vio
+Gen/GenProto.vos Gen/GenProto.vok Gen/GenProto.required_vos: Gen/GenProto.v Lib/NumOps.vos
 Gen/GenStruct.vo Gen/GenStruct.glob Gen/GenStruct.v.beautified Gen/GenStruct.required_vo: Gen/GenStruct.v Lib/NumOps.vo
 Gen/GenStruct.vio: Gen/GenStruct.v Lib/NumOps.vio
 Gen/GenStruct.vos Gen/GenStruct.vok Gen/GenStruct.required_vos: Gen/GenStruct.v Lib/NumOps.vos
@@ -37,6 +40,9 @@ Proofs/ChunkPartition.vos Proofs/ChunkPartition.vok Proofs/ChunkPartition.requir
 Proofs/ChunkSizes.vo Proofs/ChunkSizes.glob Proofs/ChunkSizes.v.beautified Proofs/ChunkSizes.required_vo: Proofs/ChunkSizes.v Lib/NumOps.vo Gen/GenChunk.vo Model/Chunk.vo Spec/ChunkSpec.vo Proofs/ChunkPartition.vo
 Proofs/ChunkSizes.vio: Proofs/ChunkSizes.v Lib/NumOps.vio Gen/GenChunk.vio Model/Chunk.vio Spec/ChunkSpec.vio Proofs/ChunkPartition.vio
 Proofs/ChunkSizes.vos Proofs/ChunkSizes.vok Proofs/ChunkSizes.required_vos: Proofs/ChunkSizes.v Lib/NumOps.vos Gen/GenChunk.vos Model/Chunk.vos Spec/ChunkSpec.vos Proofs/ChunkPartition.vos
+Proofs/CoreBound.vo Proofs/CoreBound.glob Proofs/CoreBound.v.beautified Proofs/CoreBound.required_vo: Proofs/CoreBound.v Lib/NumOps.vo Gen/GenProto.vo Model/Core.vo Spec/ProtoSpec.vo Proofs/CoreLemmas.vo
+Proofs/CoreBound.vio: Proofs/CoreBound.v Lib/NumOps.vio Gen/GenProto.vio Model/Core.vio Spec/ProtoSpec.vio Proofs/CoreLemmas.vio
+Proofs/CoreBound.vos Proofs/CoreBound.vok Proofs/CoreBound.required_vos: Proofs/CoreBound.v Lib/NumOps.vos Gen/GenProto.vos Model/Core.vos Spec/ProtoSpec.vos Proofs/CoreLemmas.vos
 Proofs/CoreCons.vo Proofs/CoreCons.glob Proofs/CoreCons.v.beautified Proofs/CoreCons.required_vo: Proofs/CoreCons.v Lib/NumOps.vo Gen/GenProto.vo Model/Core.vo Spec/ProtoSpec.vo
 Proofs/CoreCons.vio: Proofs/CoreCons.v Lib/NumOps.vio Gen/GenProto.vio Model/Core.vio Spec/ProtoSpec.vio
 Proofs/CoreCons.vos Proofs/CoreCons.vok Proofs/CoreCons.required_vos: Proofs/CoreCons.v Lib/NumOps.vos Gen/GenProto.vos Model/Core.vos Spec/ProtoSpec.vos
@@ -73,6 +79,9 @@ Props/C12.vos Props/C12.vok Props/C12.required_vos: Props/C12.v Lib/NumOps.vos G
 Props/C14.vo Props/C14.glob Props/C14.v.beautified Props/C14.required_vo: Props/C14.v Lib/NumOps.vo Gen/GenChunk.vo Model/Chunk.vo Spec/ChunkSpec.vo Proofs/ChunkPartition.vo Proofs/ChunkSizes.vo
 Props/C14.vio: Props/C14.v Lib/NumOps.vio Gen/GenChunk.vio Model/Chunk.vio Spec/ChunkSpec.vio Proofs/ChunkPartition.vio Proofs/ChunkSizes.vio
 Props/C14.vos Props/C14.vok Props/C14.required_vos: Props/C14.v Lib/NumOps.vos Gen/GenChunk.vos Model/Chunk.vos Spec/ChunkSpec.vos Proofs/ChunkPartition.vos Proofs/ChunkSizes.vos
+Props/C15.vo Props/C15.glob Props/C15.v.beautified Props/C15.required_vo: Props/C15.v Lib/NumOps.vo Gen/GenProto.vo Gen/GenParams.vo Model/Core.vo Spec/ProtoSpec.vo Proofs/CoreBound.vo
+Props/C15.vio: Props/C15.v Lib/NumOps.vio Gen/GenProto.vio Gen/GenParams.vio Model/Core.vio Spec/ProtoSpec.vio Proofs/CoreBound.vio
+Props/C15.vos Props/C15.vok Props/C15.required_vos: Props/C15.v Lib/NumOps.vos Gen/GenProto.vos Gen/GenParams.vos Model/Core.vos Spec/ProtoSpec.vos Proofs/CoreBound.vos
 Props/C16.vo Props/C16.glob Props/C16.v.beautified Props/C16.required_vo: Props/C16.v Lib/NumOps.vo Gen/GenProto.vo Gen/GenStruct.vo Model/Core.vo Spec/ProtoSpec.vo Proofs/CoreOrder.vo Model/OrderHist.vo Proofs/OrderHistProofs.vo
 Props/C16.vio: Props/C16.v Lib/NumOps.vio Gen/GenProto.vio Gen/GenStruct.vio Model/Core.vio Spec/ProtoSpec.vio Proofs/CoreOrder.vio Model/OrderHist.vio Proofs/OrderHistProofs.vio
 Props/C16.vos Props/C16.vok Props/C16.required_vos: Props/C16.v Lib/NumOps.vos Gen/GenProto.vos Gen/GenStruct.vos Model/Core.vos Spec/ProtoSpec.vos Proofs/CoreOrder.vos Model/OrderHist.vos Proofs/OrderHistProofs.vos
